@@ -42,20 +42,36 @@ func main() {
 // ---------------------------------------------------------------- program
 
 // One VCL program serves every request kind; the kind and the marker travel in request headers.
-func serialProgram(backend string) string {
+// Besides the lifecycle it exercises, per request, as much of the interpreter's shared machinery as is cheap:
+// regular expressions, a table, an ACL, string / random / time built-ins, locals, a rate counter - so that the race
+// detector sees it under concurrency.  None of it changes the path of a request.
+func serialProgram(backend string, badInit bool) string {
 	var sb strings.Builder
 	sb.WriteString(backend)
-	sb.WriteString("ratecounter rc {}\n")
+	sb.WriteString("ratecounter rc {}\ntable t { \"k\": \"v\", \"m1\": \"one\" }\nacl internal { \"127.0.0.0\"/8; \"192.0.2.0\"/24; }\n")
+	sb.WriteString("sub helper { set req.http.X-Help = std.toupper(req.http.X-Marker); }\n")
+	if badInit {
+		// ProcessInit rejects a duplicated custom subroutine: every request is answered 500 before the lifecycle
+		sb.WriteString("sub helper { set req.http.X-Help = \"again\"; }\n")
+	}
 	for _, s := range []string{"recv", "hash", "hit", "miss", "pass", "fetch", "error", "deliver", "log"} {
 		fmt.Fprintf(&sb, "sub vcl_%s {\n  log req.http.X-Marker \":%s\";\n", s, s)
 		switch s {
 		case "recv":
 			sb.WriteString("  if (req.restarts == 0) { set req.http.X-Count = ratelimit.ratecounter_increment(rc, \"k\", 1); log req.http.X-Marker \":count:\" req.http.X-Count; }\n")
+			sb.WriteString("  declare local var.s STRING; declare local var.i INTEGER;\n")
+			sb.WriteString("  if (req.http.X-Marker ~ \"^m([0-9]+)$\") { set var.s = re.group.1; }\n")
+			sb.WriteString("  set var.i = randomint(1, 10); set req.http.X-T = table.lookup(t, req.http.X-Marker, \"d\") var.s;\n")
+			sb.WriteString("  if (client.ip ~ internal) { set req.http.X-In = \"1\"; }\n")
+			sb.WriteString("  set req.http.X-Now = strftime({\"%Y\"}, now); call helper;\n")
+			sb.WriteString("  if (req.http.X-Help != std.toupper(req.http.X-Marker)) { log req.http.X-Marker \":CORRUPT-HELPER\"; }\n")
 			sb.WriteString("  if (req.http.X-Kind == \"P\") { return(pass); }\n")
 			sb.WriteString("  if (req.http.X-Kind == \"E\") { error 601; }\n")
 			sb.WriteString("  if (req.http.X-Kind == \"R\" && req.restarts == 0) { restart; }\n")
+		case "error":
+			sb.WriteString("  synthetic req.http.X-Marker;\n")
 		case "deliver":
-			sb.WriteString("  set resp.http.X-Echo = req.http.X-Marker;\n")
+			sb.WriteString("  set resp.http.X-Echo = req.http.X-Marker;\n  set resp.http.X-Seen = req.http.X-Count;\n")
 		}
 		sb.WriteString("}\n")
 	}
@@ -243,6 +259,8 @@ var allSubs = []string{"deliver", "error", "fetch", "hash", "hit", "log", "miss"
 
 type reqResult struct {
 	rep      report
+	hdr      http.Header
+	body     string
 	code     int
 	panicked string
 	done     bool
@@ -275,6 +293,8 @@ func launch(ip *interpreter.Interpreter, r *run, req int, kind string, res *reqR
 		close(started)
 		var code int
 		var rep report
+		var hdr http.Header
+		var body string
 		defer func() {
 			p := recover()
 			e := r.record(req, "end", "")
@@ -282,7 +302,7 @@ func launch(ip *interpreter.Interpreter, r *run, req int, kind string, res *reqR
 			if p != nil {
 				res.panicked = fmt.Sprint(p)
 			}
-			res.code, res.rep = code, rep
+			res.code, res.rep, res.hdr, res.body = code, rep, hdr, body
 			res.end = e
 			res.done = true
 			r.mu.Unlock()
@@ -291,8 +311,14 @@ func launch(ip *interpreter.Interpreter, r *run, req int, kind string, res *reqR
 		hr := httptest.NewRequest("GET", "http://localhost/a", nil)
 		hr.Header.Set("X-Marker", fmt.Sprintf("m%d", req))
 		hr.Header.Set("X-Kind", kind)
+		if kind == "F" {
+			// the handler refuses a request that already passed through this simulator (loop detection)
+			hr.Header.Set("Fastly-FF", "cache-localsimulator")
+		}
 		ip.ServeHTTP(w, hr)
 		code = w.Code
+		hdr = w.Header().Clone()
+		body = w.Body.String()
 		json.Unmarshal(w.Body.Bytes(), &rep) // nolint:errcheck
 	}()
 	<-started
@@ -307,8 +333,10 @@ func waitCh(c chan struct{}, d time.Duration) bool {
 	}
 }
 
-// project a finished request to the LifecycleTrace record and check that everything in it is the request's own
-func project(req int, kind string, rr *reqResult, evs []event) (obsReq, []map[string]any) {
+// project a finished request to the LifecycleTrace record and check that everything in it is the request's own.
+// actual = the simulator answers with the real response (no JSON report): the path is then taken from the log
+// events the debugger saw for the request's goroutine.
+func project(req int, kind string, rr *reqResult, evs []event, actual bool) (obsReq, []map[string]any) {
 	var mm []map[string]any
 	marker := fmt.Sprintf("m%d", req)
 	o := obsReq{URL: "a", Status: 200, Exact: true, Defined: allSubs, Seen: -1, JailSeen: -1, Flows: []string{}, Acts: []string{}}
@@ -317,12 +345,60 @@ func project(req int, kind string, rr *reqResult, evs []event) (obsReq, []map[st
 		mm = append(mm, map[string]any{"obs": "no-response", "req": req})
 		return o, mm
 	}
-	rc := 0
-	for i, f := range rr.rep.Flows {
-		if !strings.HasPrefix(f.Subroutine, "vcl_") {
-			continue
+	if kind == "F" {
+		o.Outcome = "refused"
+		if rr.code != 503 || rr.panicked != "" {
+			mm = append(mm, map[string]any{"obs": "refused-request", "req": req, "expected": 503, "got": rr.code})
 		}
-		s := strings.TrimPrefix(f.Subroutine, "vcl_")
+		return o, mm
+	}
+	var subs []string
+	if actual {
+		for _, e := range evs {
+			if e.Req == req && e.Ev == "log" {
+				if !strings.HasPrefix(e.Val, marker+":") {
+					mm = append(mm, map[string]any{"obs": "foreign-log-in-request", "req": req, "got": e.Val})
+					break
+				}
+				v := strings.TrimPrefix(e.Val, marker+":")
+				if !strings.Contains(v, ":") && v != "CORRUPT-HELPER" {
+					subs = append(subs, v)
+				}
+				if v == "CORRUPT-HELPER" {
+					mm = append(mm, map[string]any{"obs": "value-of-other-request", "req": req})
+				}
+			}
+		}
+		if n, err := strconv.Atoi(rr.hdr.Get("X-Seen")); err == nil {
+			o.Seen = n
+		}
+		o.XCache = rr.hdr.Get("X-Cache")
+		o.Cached = o.XCache == "HIT"
+	} else {
+		for _, f := range rr.rep.Flows {
+			if strings.HasPrefix(f.Subroutine, "vcl_") {
+				subs = append(subs, strings.TrimPrefix(f.Subroutine, "vcl_"))
+			}
+		}
+		for _, lg := range rr.rep.Logs {
+			if !strings.HasPrefix(lg.Message, marker+":") {
+				mm = append(mm, map[string]any{"obs": "foreign-log-in-response", "req": req, "got": lg.Message})
+				break
+			}
+			if lg.Message == marker+":CORRUPT-HELPER" {
+				mm = append(mm, map[string]any{"obs": "value-of-other-request", "req": req})
+			}
+			if strings.HasPrefix(lg.Message, marker+":count:") {
+				if n, err := strconv.Atoi(strings.TrimPrefix(lg.Message, marker+":count:")); err == nil {
+					o.Seen = n
+				}
+			}
+		}
+		o.Cached = rr.rep.Cached
+		o.XCache = rr.rep.Client.Headers["x-cache"]
+	}
+	rc := 0
+	for i, s := range subs {
 		if s == "recv" && i > 0 {
 			rc++
 		}
@@ -333,29 +409,28 @@ func project(req int, kind string, rr *reqResult, evs []event) (obsReq, []map[st
 			o.Acts = append(o.Acts, "none")
 		}
 	}
-	for _, lg := range rr.rep.Logs {
-		if !strings.HasPrefix(lg.Message, marker+":") {
-			mm = append(mm, map[string]any{"obs": "foreign-log-in-response", "req": req, "got": lg.Message})
-			break
-		}
-		if strings.HasPrefix(lg.Message, marker+":count:") {
-			if n, err := strconv.Atoi(strings.TrimPrefix(lg.Message, marker+":count:")); err == nil {
-				o.Seen = n
-			}
-		}
+	o.Restarts = rc
+	if !actual {
+		o.Restarts = rr.rep.Restarts
 	}
-	o.Restarts = rr.rep.Restarts
-	o.Cached = rr.rep.Cached
-	o.XCache = rr.rep.Client.Headers["x-cache"]
+	echo := rr.rep.Client.Headers["x-echo"]
+	okCode := rr.code == 200
+	if actual {
+		echo = rr.hdr.Get("X-Echo")
+		okCode = rr.code == 200 || (kind == "E" && rr.code == 601)
+	}
 	switch {
 	case rr.panicked != "":
 		o.Outcome = "crash"
-	case rr.rep.Error != "" || rr.code != 200:
+	case (!actual && rr.rep.Error != "") || !okCode:
 		o.Outcome = "error"
 	default:
 		o.Outcome = "ok"
-		if e := rr.rep.Client.Headers["x-echo"]; e != marker {
-			mm = append(mm, map[string]any{"obs": "foreign-header-in-response", "req": req, "got": e})
+		if echo != marker {
+			mm = append(mm, map[string]any{"obs": "foreign-header-in-response", "req": req, "got": echo})
+		}
+		if actual && kind == "E" && rr.body != marker {
+			mm = append(mm, map[string]any{"obs": "foreign-body-in-response", "req": req, "got": rr.body})
 		}
 	}
 	// linearisation window: first statement executed .. response header written
@@ -395,7 +470,7 @@ func cmdSched(args []string) int {
 	fs.Parse(args) // nolint:errcheck
 	server, backend := backendServer()
 	defer server.Close()
-	vcl := serialProgram(backend)
+	vcl := serialProgram(backend, false)
 	tf, _ := os.Create(*tracePath)
 	defer tf.Close()
 	ef, _ := os.Create(*evPath)
@@ -432,6 +507,21 @@ func cmdSched(args []string) int {
 			}
 			switch act {
 			case "Start":
+				if b.Kind[rq-1] == "F" {
+					// refused before the lock: no gate is ever reached, the request finishes at once
+					close(r.g2[rq])
+					released2[rq] = true
+					launch(ip, r, rq, "F", results[rq], &wg)
+					deadline := time.Now().Add(wait)
+					for !func() bool { r.mu.Lock(); defer r.mu.Unlock(); return results[rq].done }() {
+						if time.Now().After(deadline) {
+							stuck = fmt.Sprintf("refused request %d never returned", rq)
+							break steps
+						}
+						time.Sleep(50 * time.Microsecond)
+					}
+					continue
+				}
 				launch(ip, r, rq, b.Kind[rq-1], results[rq], &wg)
 				if arrive == rq {
 					// the lock is free: the request enters at once
@@ -485,12 +575,17 @@ func cmdSched(args []string) int {
 			res.Mismatch = append(res.Mismatch, map[string]any{"obs": "hang", "detail": stuck})
 		}
 		tr := obsTrace{ID: id, Concurrent: true}
+		refused := map[int]bool{}
 		for i := 1; i <= b.N; i++ {
 			r.mu.Lock()
 			rr := *results[i]
 			r.mu.Unlock()
-			o, mm := project(i, b.Kind[i-1], &rr, evs)
+			o, mm := project(i, b.Kind[i-1], &rr, evs, false)
 			res.Mismatch = append(res.Mismatch, mm...)
+			if b.Kind[i-1] == "F" {
+				refused[i] = true
+				continue
+			}
 			tr.Reqs = append(tr.Reqs, o)
 			var exp serialOut
 			json.Unmarshal(b.Out[i-1], &exp) // nolint:errcheck
@@ -503,10 +598,13 @@ func cmdSched(args []string) int {
 		}
 		res.Observed = tr
 		res.Key = fmt.Sprint(b.Kind, b.Sched)
-		bt, _ := json.Marshal(tr)
-		tf.Write(append(bt, '\n')) // nolint:errcheck
-		be, _ := json.Marshal(map[string]any{"id": id, "n": b.N, "events": lockEvents(evs)})
-		ef.Write(append(be, '\n')) // nolint:errcheck
+		if len(tr.Reqs) > 0 {
+			res.Validated = true // marker for the check: a trace was written for this case
+			bt, _ := json.Marshal(tr)
+			tf.Write(append(bt, '\n')) // nolint:errcheck
+			be, _ := json.Marshal(map[string]any{"id": id, "n": b.N, "events": lockEvents(evs, refused)})
+			ef.Write(append(be, '\n')) // nolint:errcheck
+		}
 		out.Write(res)
 		return nil
 	})
@@ -518,9 +616,12 @@ func cmdSched(args []string) int {
 }
 
 // the events that happen inside the handler's critical section, in global order
-func lockEvents(evs []event) []event {
-	var o []event
+func lockEvents(evs []event, skip map[int]bool) []event {
+	o := []event{}
 	for _, e := range evs {
+		if skip[e.Req] {
+			continue
+		}
 		if e.Ev == "enter" || e.Ev == "log" || e.Ev == "wh" {
 			o = append(o, event{Seq: e.Seq, Req: e.Req, Ev: e.Ev})
 		}
@@ -540,7 +641,8 @@ func cmdFree(args []string) int {
 	fs.Parse(args) // nolint:errcheck
 	server, backend := backendServer()
 	defer server.Close()
-	vcl := serialProgram(backend)
+	vcl := serialProgram(backend, false)
+	vclBad := serialProgram(backend, true)
 	tf, _ := os.Create(*tracePath)
 	defer tf.Close()
 	ef, _ := os.Create(*evPath)
@@ -548,15 +650,27 @@ func cmdFree(args []string) int {
 	out := hx.NewOut()
 	defer out.Close()
 	rng := rand.New(rand.NewSource(hx.Seed()*7919 + int64(runtime.GOMAXPROCS(0))))
-	kinds := []string{"L", "L", "P", "E", "R"}
+	kinds := []string{"L", "L", "P", "E", "R", "F"}
 	for round := 1; round <= *rounds; round++ {
 		n := 2 + rng.Intn(*maxN-1)
 		id := fmt.Sprintf("%s%d", *prefix, round)
-		ip := interpreter.New(context.WithResolver(resolver.NewStaticResolver("main", vcl)))
-		r := newRun(n, false, rng.Int63())
+		// three kinds of rounds: process report (JSON), the real response, and a program that ProcessInit rejects
+		mode := []string{"report", "actual", "report", "badinit"}[round%4]
+		opts := []context.Option{context.WithResolver(resolver.NewStaticResolver("main", vcl))}
+		if mode == "actual" {
+			opts = append(opts, context.WithActualResponse(true))
+		}
+		if mode == "badinit" {
+			opts = []context.Option{context.WithResolver(resolver.NewStaticResolver("main", vclBad))}
+			if n > 6 {
+				n = 6
+			}
+		}
+		ip := interpreter.New(opts...)
+		r := newRun(n+1, false, rng.Int63())
 		ip.Debugger = gateDebugger{r}
 		ks := make([]string, n)
-		results := make([]*reqResult, n+1)
+		results := make([]*reqResult, n+2)
 		for i := range results {
 			results[i] = &reqResult{}
 		}
@@ -567,21 +681,51 @@ func cmdFree(args []string) int {
 		}
 		doneCh := make(chan struct{})
 		go func() { wg.Wait(); close(doneCh) }()
-		res := hx.CaseResult{ID: id, Input: map[string]any{"n": n, "kinds": ks, "gomaxprocs": runtime.GOMAXPROCS(0)},
-			Class: map[string]any{"mode": "free"}}
+		res := hx.CaseResult{ID: id, Input: map[string]any{"n": n, "kinds": ks, "gomaxprocs": runtime.GOMAXPROCS(0), "mode": mode},
+			Class: map[string]any{"mode": "free-" + mode}}
 		if !waitCh(doneCh, 30*time.Second) {
 			res.Mismatch = append(res.Mismatch, map[string]any{"obs": "hang", "detail": "requests did not finish"})
+		}
+		if mode == "badinit" {
+			// one more request after the others: an instance whose requests fail at init must keep answering
+			var wg2 sync.WaitGroup
+			launch(ip, r, n+1, "L", results[n+1], &wg2)
+			d2 := make(chan struct{})
+			go func() { wg2.Wait(); close(d2) }()
+			if !waitCh(d2, 10*time.Second) {
+				res.Mismatch = append(res.Mismatch, map[string]any{"obs": "hang", "detail": "request after init errors never answered"})
+			}
+			for i := 1; i <= n+1; i++ {
+				r.mu.Lock()
+				rr := *results[i]
+				r.mu.Unlock()
+				want := 500
+				if i <= n && ks[i-1] == "F" {
+					want = 503
+				}
+				if !rr.done || rr.code != want || rr.panicked != "" {
+					res.Mismatch = append(res.Mismatch, map[string]any{"obs": "init-error-response", "req": i, "expected": want, "got": rr.code, "done": rr.done})
+				}
+			}
+			res.Key = fmt.Sprint("badinit", ks)
+			out.Write(res)
+			continue
 		}
 		r.mu.Lock()
 		evs := append([]event(nil), r.events...)
 		r.mu.Unlock()
 		tr := obsTrace{ID: id, Concurrent: true}
+		refused := map[int]bool{}
 		for i := 1; i <= n; i++ {
 			r.mu.Lock()
 			rr := *results[i]
 			r.mu.Unlock()
-			o, mm := project(i, ks[i-1], &rr, evs)
+			o, mm := project(i, ks[i-1], &rr, evs, mode == "actual")
 			res.Mismatch = append(res.Mismatch, mm...)
+			if ks[i-1] == "F" {
+				refused[i] = true
+				continue
+			}
 			tr.Reqs = append(tr.Reqs, o)
 		}
 		res.Observed = tr
@@ -591,11 +735,14 @@ func cmdFree(args []string) int {
 				order = append(order, e.Req)
 			}
 		}
-		res.Key = fmt.Sprint(ks, order)
-		bt, _ := json.Marshal(tr)
-		tf.Write(append(bt, '\n')) // nolint:errcheck
-		be, _ := json.Marshal(map[string]any{"id": id, "n": n, "events": lockEvents(evs)})
-		ef.Write(append(be, '\n')) // nolint:errcheck
+		res.Key = fmt.Sprint(mode, ks, order)
+		if len(tr.Reqs) > 0 {
+			res.Validated = true // marker for the check: a trace was written for this case
+			bt, _ := json.Marshal(tr)
+			tf.Write(append(bt, '\n')) // nolint:errcheck
+			be, _ := json.Marshal(map[string]any{"id": id, "n": n, "events": lockEvents(evs, refused)})
+			ef.Write(append(be, '\n')) // nolint:errcheck
+		}
 		out.Write(res)
 	}
 	return 0
